@@ -2,7 +2,7 @@ import SC.Proofs.KernSmall
 import SC.Proofs.KernBlocks
 import SC.Model.AsmShape
 import SC.Gen.AsmFacts
-import SC.Proofs.AsmWhole
+import SC.Proofs.AsmAvxCount
 import SC.Model.Spec
 /-!
 # C13 — SIMD byte kernels equal their scalar definition at every length and alignment
@@ -129,23 +129,25 @@ theorem source_count_loops (sym : String) (hs : sym ∈ ["countbody", "countbody
 
 `Gen.Asm.body_*` are the five bodies (`indexbytebody`, `indexbytebodyCase`, `indexByteBodyNonASCII`, `countbody`,
 `countbodyCase`) **regenerated instruction by instruction** by `tools/asmfacts.py`: every label in source order, every
-mnemonic with its registers, displacements, immediates and branch targets (the AVX2 instructions, outside the modelled
-subset, appear as `STUCK`).  `Asm.run` (`SC/Model/Asm.lean`) interprets that subset of amd64 — general registers, XMM
-lanes, ZF/CF/signed-less, fall-through between labels — recording every 16-byte load.
+mnemonic with its registers, displacements, immediates and branch targets (an instruction outside the modelled subset
+would appear as `STUCK`; there is none).  `Asm.run` (`SC/Model/Asm.lean`) interprets that subset of amd64 — general
+registers, XMM and YMM lanes, ZF/CF/signed-less, fall-through between labels — recording every 16- and 32-byte load.
 
 `whole_bodies`: from **any** machine state with `SI` = data, `BX` = length, the needle byte in `AL`, running a body from its
 first instruction (lane broadcast `MOVD/PUNPCKLBW/PUNPCKLBW/PSHUFL`, `ORL $32` for letters, dispatch on the length, the
-`len < 16` path with its page test, or the SSE loop with its overlapping / masked last block) stores the scalar definition's
-answer through `R8`, and every byte it loads lies in a page that holds a byte of the argument — for every memory, base
-address, needle byte and **every length** when the CPU feature flag is off, every length up to the AVX2 threshold when it
-is on.  The loop parts are proved by invariants over machine states (`Proofs/AsmLoop.lean`, `AsmCountLoop.lean`).
-Not modelled: the AVX2 loops (block level only), the ABI wrappers that load `SI/BX/AL/R8` and jump to a body. -/
+`len < 16` path with its page test, the SSE loop with its overlapping / masked last block, or — CPU feature flag set and
+length beyond 32 / 64 — the AVX2 loop with `VPTEST` / `VPMOVMSKB` and its overlapping last block or `POPCNTQ`-masked 64-byte
+tail) stores the scalar definition's answer through `R8`, and every byte it loads lies in a page that holds a byte of the
+argument — for every memory, base address, needle byte, **every length and either value of the CPU feature flag**.  The loop
+parts are proved by invariants over machine states (`Proofs/AsmLoop.lean`, `AsmCountLoop.lean`, `AsmAvx.lean`,
+`AsmAvxCount.lean`).  Modelling assumptions: `Y_k` is a register file separate from `X_k` (see `Asm.YReg`); `VZEROUPPER` is
+a no-op of the model.  Not modelled: the ABI wrappers that load `SI/BX/AL/R8` and jump to a body. -/
 
 theorem whole_bodies (mem : Mem) (base len : Nat) (c : UInt8) (s : Asm.St) (f : Nat)
-    (hb : base + len + 32 < 2 ^ 62)
+    (hb : base + len + 128 < 2 ^ 62)
     (hSI : s.r .SI = base) (hBX : s.r .BX = len) (hAL : s.r .AX % 256 = c.toNat)
     (hmem : s.mem = mem) (hout : s.out = none) (hl : s.loads = [])
-    (hcfg : s.avx2 = false ∨ len ≤ 32) (hf : 9 * (len + 1) + 50 ≤ f) :
+    (hf : 15 * (len + 1) + 80 ≤ f) :
     -- case-sensitive byte search
     ((Asm.run Gen.Asm.body_indexbytebody f (Asm.block Gen.Asm.body_indexbytebody "entry") s).out =
         some (specIndex (fun b => b == c) mem base len) ∧
@@ -165,11 +167,17 @@ theorem whole_bodies (mem : Mem) (base len : Nat) (c : UInt8) (s : Asm.St) (f : 
     ((Asm.run Gen.Asm.body_countbodyCase f (Asm.block Gen.Asm.body_countbodyCase "entry") s).out =
         some ((specCount (fun b => (b ||| 0x20) == (c ||| 0x20)) mem base len : Nat) : Int) ∧
       Asm.Safe base len (Asm.run Gen.Asm.body_countbodyCase f (Asm.block Gen.Asm.body_countbodyCase "entry") s).loads) :=
-  ⟨Asm.whole_indexbytebody mem base len c s f hb hSI hBX hAL hmem hout hl hcfg (by omega),
-   Asm.whole_indexbytebodyCase mem base len c s f hb hSI hBX hAL hmem hout hl hcfg (by omega),
-   Asm.whole_indexByteBodyNonASCII mem base len c s f hb hSI hBX hmem hout hl hcfg (by omega),
-   Asm.whole_countbody mem base len c s f hb hSI hBX hAL hmem hout hl (by rcases hcfg with h | h; exact Or.inl h; exact Or.inr (by omega)) (by omega),
-   Asm.whole_countbodyCase mem base len c s f hb hSI hBX hAL hmem hout hl (by rcases hcfg with h | h; exact Or.inl h; exact Or.inr (by omega)) (by omega)⟩
+  ⟨Asm.full_indexbytebody mem base len c s f (by omega) hSI hBX hAL hmem hout hl (by omega),
+   Asm.full_indexbytebodyCase mem base len c s f (by omega) hSI hBX hAL hmem hout hl (by omega),
+   Asm.full_indexByteBodyNonASCII mem base len c s f (by omega) hSI hBX hmem hout hl (by omega),
+   Asm.full_countbody mem base len c s f hb hSI hBX hAL hmem hout hl (by omega),
+   Asm.full_countbodyCase mem base len c s f hb hSI hBX hAL hmem hout hl (by omega)⟩
+
+/-- the hypotheses of `whole_bodies` are satisfiable with the AVX2 flag set and a length on the AVX2 path -/
+example : ∃ s : Asm.St, s.avx2 = true ∧ s.r .SI = 4096 ∧ s.r .BX = 200 ∧ s.r .AX % 256 = (0x41 : UInt8).toNat ∧
+    s.out = none ∧ s.loads = [] :=
+  ⟨{ r := fun q => match q with | .SI => 4096 | .BX => 200 | .AX => 0x41 | _ => 0, x := fun _ _ => 0, y := fun _ _ => 0,
+     zf := false, cf := false, lt := false, avx2 := true, mem := fun _ => 0, loads := [], out := none }, rfl, rfl, rfl, rfl, rfl, rfl⟩
 
 /-- the letter kernels compute the library's fold-equality of bytes: for an ASCII letter `c`, `(b ||| 0x20) == (c ||| 0x20)` is
     `S.byteEqFold c b` -/
@@ -189,4 +197,18 @@ theorem lane_masks :
     (∀ n : Fin 16, ∀ j : Fin 16, ((1 <<< n.val) - 1).testBit j.val = decide (j.val < n.val)) ∧
     (∀ c : Fin 65, ∀ j : Fin 64, ((0xFFFFFFFFFFFFFFFF <<< c.val) % 2 ^ 64).testBit j.val = decide (c.val ≤ j.val)) :=
   ⟨highMask16, lowMask16, highMask64⟩
+end C13
+
+namespace C13
+/-- concrete runs of the interpreter through the AVX2 paths (flag set): a 70-byte search matching in the overlapping last
+    block, and a 130-byte count using the masked 64-byte tail -/
+example : (Asm.run Gen.Asm.body_indexbytebody 200 (Asm.block Gen.Asm.body_indexbytebody "entry")
+    { r := fun q => match q with | .SI => 4096 | .BX => 70 | .AX => 0x41 | _ => 0, x := fun _ _ => 0, y := fun _ _ => 0,
+      zf := false, cf := false, lt := false, avx2 := true, mem := fun i => if i = 4096 + 66 then 0x41 else 0, loads := [], out := none }).out
+    = some 66 := by decide +kernel
+example : (Asm.run Gen.Asm.body_countbodyCase 400 (Asm.block Gen.Asm.body_countbodyCase "entry")
+    { r := fun q => match q with | .SI => 4096 | .BX => 130 | .AX => 0x41 | _ => 0, x := fun _ _ => 0, y := fun _ _ => 0,
+      zf := false, cf := false, lt := false, avx2 := true,
+      mem := fun i => if i = 4096 + 3 ∨ i = 4096 + 64 ∨ i = 4096 + 129 then 0x61 else if i = 4096 + 130 then 0x41 else 0, loads := [], out := none }).out
+    = some 3 := by decide +kernel
 end C13
